@@ -419,3 +419,20 @@ Fixpoint exec (s : state) (ops : list op) : state :=
   | [] => s
   | o :: ops' => exec (fst (step s o)) ops'
   end.
+
+(* ---------- a history continued on two independent copies of the runtime (Otto.Copy()) ---------- *)
+(* after the common prefix every operation runs on one side (false = the original, true = the copy)
+   and is followed by the snapshot of BOTH sides: two independent replays of the state machine *)
+Fixpoint fork_run (sa sb : state) (ops : list (bool * op)) : list (list Z) :=
+  match ops with
+  | [] => []
+  | (side, o) :: ops' =>
+      let '(s', r) := step (if side then sb else sa) o in
+      let sa' := if side then sa else s' in
+      let sb' := if side then s' else sb in
+      (r ++ snapshot sa' ++ snapshot sb') :: fork_run sa' sb' ops'
+  end.
+
+Definition run_fork (prefix : list op) (ops : list (bool * op)) : list (list Z) :=
+  let s := exec init prefix in
+  run init prefix ++ fork_run s s ops.
